@@ -6,14 +6,16 @@ CaseBox gen_case(const std::string& property, const std::string& part, const std
   CaseBox cb;
   cb.property = property;
   if (property == "C12") { cb.engine = "c12"; cb.c12 = gen_c12(part, tier, seed, idx); return cb; }
+  if (property == "C14" && (part == "enum" || part == "random")) { cb.engine = "c14a"; cb.c14a = gen_c14a(part, tier, seed, idx); return cb; }
   cb.engine = "conc";
-  cb.conc = gen_conc(property, tier, seed, idx);
+  cb.conc = gen_conc(property, part == "hints" ? part : tier, seed, idx);
   return cb;
 }
 
 Outcome exec_case(CaseBox& cb, bool keep_log, Stats* stats) {
   if (cb.engine == "conc") return exec_conc(cb.conc, keep_log, stats);
   if (cb.engine == "c12") return exec_c12(cb.c12, keep_log, stats);
+  if (cb.engine == "c14a") return exec_c14a(cb.c14a, keep_log, stats);
   Outcome o;
   Violation v; v.cls = "machinery:unknown-engine"; v.site = cb.engine;
   o.violations.push_back(v);
@@ -23,6 +25,7 @@ Outcome exec_case(CaseBox& cb, bool keep_log, Stats* stats) {
 J case_to_json(const CaseBox& cb) {
   if (cb.engine == "conc") return conc_to_json(cb.conc);
   if (cb.engine == "c12") return c12_to_json(cb.c12);
+  if (cb.engine == "c14a") return c14a_to_json(cb.c14a);
   return cb.generic;
 }
 
@@ -31,6 +34,7 @@ bool case_from_json(const J& j, CaseBox* cb) {
   cb->property = j.gets("property");
   if (cb->engine == "conc") return conc_from_json(j, &cb->conc);
   if (cb->engine == "c12") return c12_from_json(j, &cb->c12);
+  if (cb->engine == "c14a") return c14a_from_json(j, &cb->c14a);
   cb->generic = j;
   return !cb->engine.empty();
 }
@@ -39,6 +43,12 @@ void set_recorded_schedule(CaseBox* cb, const Outcome& o) {
   if (cb->engine == "conc") {
     cb->conc.sched.chooser = CH_EXPLICIT;
     cb->conc.sched.schedule = o.schedule;
+  } else if (cb->engine == "c14a") {
+    if (o.extra.t == J::ARR) {
+      cb->c14a.steps.clear();
+      for (const J& q : o.extra.a) { Step s; s.q = query_from_json(q); s.check = q.getb("check", true); cb->c14a.steps.push_back(s); }
+      cb->c14a.explicit_steps = true;
+    }
   } else if (cb->engine == "c12") {
     cb->c12.explicit_schedule = true;
     cb->c12.schedule = o.schedule;
@@ -50,6 +60,7 @@ void set_recorded_schedule(CaseBox* cb, const Outcome& o) {
 namespace sim {
 int64_t part_size(const std::string& property, const std::string& part, const std::string& tier) {
   if (property == "C12") return c12_part_size(part, tier);
+  if (property == "C14") return c14a_part_size(part, tier);
   return -1;
 }
 }  // namespace sim
